@@ -1,5 +1,6 @@
 import StamModel.JsonSel
 import StamModel.Driver.Cr
+import StamModel.Driver.Wj
 open Stam
 namespace Driver
 
@@ -10,6 +11,9 @@ partial def parseJ : List String → Option (JS.J × List String)
     match tok.toList with
     | ['Z'] => some (.null, rest)
     | 'S' :: h => (unhex (String.ofList h)).map (fun s => (.str s, rest))
+    | ['T'] => some (.bool true, rest)
+    | ['F'] => some (.bool false, rest)
+    | 'X' :: h => (unhex (String.ofList h)).map (fun l => (.lit l, rest))
     | 'N' :: n => (let t := String.ofList n; if t.startsWith "-" then ((t.drop 1).toNat?).map (fun k => -(k : Int)) else t.toNat?.map (fun k => (k : Int))).map (fun z => (.num z, rest))
     | 'A' :: n =>
       match (String.ofList n).toNat? with
@@ -42,10 +46,42 @@ partial def showJ : JS.J → String
   | .null => "Z"
   | .str s => "S" ++ hexOf s
   | .num z => s!"N{z}"
+  | .lit l => "X" ++ hexOf l
+  | .bool true => "T"
+  | .bool false => "F"
   | .arr l => s!"A{l.length}" ++ String.join (l.map (fun x => " " ++ showJ x))
   | .obj ms =>
     let sorted := ms.foldl (fun acc m => insertBy (fun a b => String.ofList a.1 ≤ String.ofList b.1) m acc) []
     s!"O{ms.length}" ++ String.join (sorted.map (fun m => " " ++ hexOf m.1 ++ " " ++ showJ m.2))
+
+/-- prefix form of a data value: N | T | F | I<int> | S<hex> | X<hex float literal> | D<hex datetime literal> | L<count> … -/
+partial def parseDVJ : List String → Option (JS.DVJ × List String)
+  | [] => none
+  | tok :: rest =>
+    match tok.toList with
+    | ['N'] => some (.null, rest)
+    | ['T'] => some (.bool true, rest)
+    | ['F'] => some (.bool false, rest)
+    | 'I' :: n => (parseIntTok (String.ofList n)).map (fun z => (.int z, rest))
+    | 'S' :: h => (unhex (String.ofList h)).map (fun s => (.str s, rest))
+    | 'X' :: h => (unhex (String.ofList h)).map (fun s => (.flt s, rest))
+    | 'D' :: h => (unhex (String.ofList h)).map (fun s => (.dt s, rest))
+    | 'L' :: n =>
+      match (String.ofList n).toNat? with
+      | none => none
+      | some k =>
+        let rec goV : Nat → List String → Option (List JS.DVJ × List String)
+          | 0, r => some ([], r)
+          | k + 1, r => match parseDVJ r with
+            | some (x, r') => (goV k r').map (fun (xs, r'') => (x :: xs, r''))
+            | none => none
+        (goV k rest).map (fun (xs, r) => (.list xs, r))
+    | _ => none
+
+partial def showDVJ : JS.DVJ → String
+  | .null => "N" | .bool true => "T" | .bool false => "F"
+  | .int z => s!"I{z}" | .str s => "S" ++ hexOf s | .flt l => "X" ++ hexOf l | .dt l => "D" ++ hexOf l
+  | .list xs => s!"L{xs.length}" ++ String.join (xs.map (fun x => " " ++ showDVJ x))
 
 /-- `js write <target>`: the JSON tree of the target (members sorted by name); `js read <tree>`: the target read from it -/
 def js (args : List String) : String :=
@@ -60,6 +96,18 @@ def js (args : List String) : String :=
       match JS.readTargetJ j with
       | .ok t => "ok " ++ showCrTarget t
       | .err m => if m = "nested" then "unmodelled" else "err"
+      | .panic m => "panic:" ++ m
+    | _ => "bad-op"
+  | "wval" :: spec =>
+    match parseDVJ spec with
+    | some (v, []) => showJ (JS.valueJ v)
+    | _ => "bad-op"
+  | "rval" :: toks =>
+    match parseJ toks with
+    | some (j, []) =>
+      match JS.readValue isDatetimeLit (fun z => (toString z ++ ".0").toList) 64 j with
+      | .ok v => "ok " ++ showDVJ v
+      | .err _ => "err"
       | .panic m => "panic:" ++ m
     | _ => "bad-op"
   | _ => "bad-op"
